@@ -57,6 +57,27 @@ theorem pow_paths_refine (ω : String → Bool) (u v : UnitV K) (p : Rat) :
   by_cases hb1 : (p == 1) = true <;> by_cases hb0 : (p == 0) = true <;>
   simp [h1, h5, hb1, hb0]
 
+/-- the source of `Unit.__eq__` decides equality by (scale, offset, dimension) only — whatever the closeness
+    relation on numbers is (`math.isclose` at `Float`, `==` at an exact carrier); the expression, the
+    registry and the identity of the dimension object play no role -/
+theorem eq_paths_refine (close : K → K → Bool) (ω : String → Bool) (u v : UnitV K) :
+    evalBoolPaths close ω u v eqPaths
+      = some (close u.scale v.scale && close u.offset v.offset && u.dim == v.dim) := by
+  simp only [eqPaths, evalBoolPaths, guardHoldsB, Cond.evalB, Atom.evalB, Atom.eval]
+  by_cases h1 : u.canon = true <;> by_cases h2 : v.canon = true <;> by_cases h3 : (u.dim == v.dim) = true <;>
+  by_cases h4 : close u.scale v.scale = true <;> by_cases h5 : close u.offset v.offset = true <;>
+  simp [h1, h2, h3, h4, h5]
+
+/-- … at an exact carrier it is `UnitV.eqv` (the subject of `eq_iff_scale_offset_dim`) -/
+theorem eq_paths_exact (ω : String → Bool) (u v : UnitV K) :
+    evalBoolPaths (· == ·) ω u v eqPaths = some (UnitV.eqv u v) := by
+  rw [eq_paths_refine]; rfl
+
+/-- … and at `Float` with `math.isclose` it is `UnitV.eqFloat`, what the driver's `ueq` runs -/
+theorem eq_paths_float (ω : String → Bool) (u v : UnitV Float) :
+    evalBoolPaths Float.isclose ω u v eqPaths = some (UnitV.eqFloat u v) := by
+  rw [eq_paths_refine]; rfl
+
 end refine
 
 section powsrc
